@@ -307,13 +307,16 @@ def assert_valid_covariance(
     are computed as zero plus or minus that rounding error.
     """
     assert isinstance(covariance, np.ndarray)
-    assert np.allclose(covariance, covariance.T)
 
     if covariance.size == 0:
         return
 
-    covariance_eigenvalues = np.linalg.eigvalsh((covariance + covariance.T) / 2.0)
     scale = max(1.0, float(np.max(np.abs(covariance))))
+    # Rounding asymmetry of a product like G P G^T is proportional to the
+    # magnitude of the matrix, also in entries that are (nearly) zero
+    assert np.allclose(covariance, covariance.T, rtol=1e-5, atol=1e-8 * scale)
+
+    covariance_eigenvalues = np.linalg.eigvalsh((covariance + covariance.T) / 2.0)
     if np.any(covariance_eigenvalues < negative_tol * scale):
         # negative definite matrix is not a valid representation of uncertainty
         raise AssertionError(
